@@ -55,6 +55,31 @@ template <class P> static ull workload(unsigned seed, int rounds) {
   free_aligned(4, x);
   return h;
 }
+// handles that SHARE one payload, one per thread: each thread mutates only its own handle (copy-on-write must isolate them)
+template <class P> static bool shared_handles(int T, int rounds) {
+  typedef nfl::poly_p<typename P::value_type, P::degree, P::nmoduli> H;
+  bool ok = true;
+  for (int r = 0; r < rounds * 20 && ok; r++) {
+    H base; for (size_t i = 0; i < P::degree; i++) base(0, i) = (typename P::value_type)(i + 1 + r);
+    std::vector<H*> hs; for (int t = 0; t < T; t++) hs.push_back(new H(base));
+    std::vector<std::thread> th;
+    for (int t = 0; t < T; t++) th.emplace_back([&, t] { H& mine = *hs[t]; mine(P::nmoduli - 1, P::degree - 1) = (typename P::value_type)(1000 + t); mine(0, t % P::degree) = (typename P::value_type)(7 + t); });
+    for (auto& x : th) x.join();
+    for (int t = 0; t < T; t++) {
+      H const& c = *hs[t];
+      for (size_t i = 0; i < P::degree; i++) {
+        typename P::value_type want = (typename P::value_type)(i + 1 + r);
+        if (i == (size_t)(t % P::degree)) want = (typename P::value_type)(7 + t);
+        if (P::nmoduli == 1 && i == P::degree - 1) want = (typename P::value_type)(1000 + t);
+        if (c(0, i) != want) ok = false;
+      }
+      if (c(P::nmoduli - 1, P::degree - 1) != (typename P::value_type)(1000 + t)) ok = false;
+      delete hs[t];
+    }
+    H const& cb = base; for (size_t i = 0; i < P::degree; i++) if (cb(0, i) != (typename P::value_type)(i + 1 + r)) ok = false;
+  }
+  return ok;
+}
 template <class P> static void go(int T, int rounds, std::ostringstream& os) {
   typedef nfl::tests::poly_tests_proxy<P> X;
   { P* warm = alloc_aligned<P, 32>(1); free_aligned(1, warm); }
@@ -67,7 +92,7 @@ template <class P> static void go(int T, int rounds, std::ostringstream& os) {
   for (auto& x : th) x.join();
   ull t2 = X::tables_digest();
   int ok = 0; for (int t = 0; t < T; t++) if (ref[t] == got[t]) ok++;
-  os << "ok=" << ok << "/" << T << " tables=" << ((t0 == t1 && t1 == t2) ? "unchanged" : "CHANGED") << " ";
+  os << "ok=" << ok << "/" << T << " tables=" << ((t0 == t1 && t1 == t2) ? "unchanged" : "CHANGED") << " shared-handles=" << (shared_handles<P>(T, rounds) ? "isolated" : "CORRUPTED") << " ";
 }
 int main(int argc, char** argv) {
   int T = argc > 1 ? atoi(argv[1]) : 4, rounds = argc > 2 ? atoi(argv[2]) : 3;
